@@ -126,7 +126,10 @@ def run(op, w):
             return ['ok', H.digest(H.fp(pb.Atmo(U.Foot(1000), U.InHg(28), U.Fahrenheit(80), 30)))]
         if kind == 'new_shot':
             old = w['S'][op[1]]
-            w['S'][op[1]] = pb.Shot(old.weapon, pb.Ammo(old.ammo.dm, U.FPS(old.ammo.mv >> U.FPS)), atmo=old.atmo)
+            # same values, new objects (the winds are copied by value so that the order of this op and of an edit of D's wind does not matter
+            # to the reference world, which applies edits at construction)
+            w['S'][op[1]] = pb.Shot(old.weapon, pb.Ammo(old.ammo.dm, U.FPS(old.ammo.mv >> U.FPS)), atmo=old.atmo,
+                                    winds=[pb.Wind(x.velocity, x.direction_from, x.until_distance) for x in old._winds])
             return ['ok', H.digest(H.fp(w['S'][op[1]], display=False))]
     except pb.RangeError as e:
         res = ['RangeError', e.reason, traj_bits(e.incomplete_trajectory)]
